@@ -198,14 +198,12 @@ Definition wcheckF13 (c : wcase13) : bool :=
 Definition wcheckS13 (c : wcase13) : bool :=
   negb (w13_rd_timeout c) && negb (w13_mm_status c =? 2)
   && (if (w13_mm_status c =? 0) && w13_rd_ok c then wview_eqb (w13_mm c) (w13_rd c) else true).
-(* region 11: single-step file (the record reader never returns); region 12: 1x1 grid; region 13: year crossing;
-   region 19: more steps than the Memmap reader's step count can take (12 * steps >= body + 4) *)
+(* region 11: single-step file (the record reader never returns); region 12: 1x1 grid; region 13: year crossing *)
 Definition wregion13 (c : wcase13) : nat :=
   let ds := map ws_date (w_steps (w13_c c)) in
   if w_nx (w13_c c) * w_ny (w13_c c) =? 1 then 12%nat
   else if Z.of_nat (length ds) <? 2 then 11%nat
-  else if year_cross ds then 13%nat
-  else if w_body_bytes (w13_c c) + 4 <=? 12 * Z.of_nat (length ds) then 19%nat else 0%nat.
+  else if year_cross ds then 13%nat else 0%nat.
 
 Inductive case_t :=
 | WC (c : wcase13)
